@@ -639,8 +639,33 @@ func legC09(e *Engine) []Violation {
 		if i%8 == 7 {
 			class = "block"
 		}
-		final, _ := cb.genMergePlan(class, false)
-		for s := 0; s <= final; s++ {
+		var final int
+		if i%8 == 3 {
+			// more than one 1024-document doc-value chunk: concurrent and nested readers must not
+			// share a chunk cache
+			class = "chunk"
+			cb.u.dvOK[string(cb.u.fields[0])] = true
+			cb.u.dvAll = true
+			if len(cb.u.terms) > 4 {
+				cb.u.terms = cb.u.terms[:4]
+			}
+			docs, m, api := cb.genLeaf("chunk", "d")
+			final = cb.addBuild(docs, m, api)
+			n := cb.n[final]
+			for k := 0; k < 24; k++ {
+				var order []int
+				for x := 0; x < 6; x++ {
+					order = append(order, []int{r.Intn(n), 1023, 1024, 0, n - 1, 1025}[r.Intn(6)]%n)
+				}
+				cb.q("dv", itoa(final), hxList(cb.u.fields), intList(order))
+			}
+			for _, d := range cb.sampleDocs(n, 12) {
+				cb.q("stored", itoa(final), itoa(d), "-1")
+			}
+		} else {
+			final, _ = cb.genMergePlan(class, false)
+		}
+		for s := 0; s <= final && class != "chunk"; s++ {
 			if class == "tiny" || s == 0 || s == final {
 				cb.observeAll(s)
 			}
@@ -704,6 +729,8 @@ func legC09(e *Engine) []Violation {
 					var a string
 					if c.Queries[j][0] == "stored" && rr.Chance(1, 2) {
 						a = w.execReentrant(c.Queries[j], c.Queries[order[rr.Intn(len(order))]])
+					} else if c.Queries[j][0] == "dv" && rr.Chance(1, 2) {
+						a = w.execReentrantDV(c.Queries[j])
 					} else {
 						a = w.Exec(c.Queries[j], nil)
 					}
@@ -770,5 +797,51 @@ func (w *World) execReentrant(q Query, inner Query) string {
 		return strings.Join(out, " ")
 	})
 }
+
+// execReentrantDV answers a doc-value query whose visitor, on its first call for each document,
+// opens a second reader on the same fields and visits a document of another 1024-document chunk.
+func (w *World) execReentrantDV(q Query) string {
+	return guard(opTimeout, func() string {
+		rs, e := w.segOfTok(q[1])
+		if rs == nil {
+			return e
+		}
+		var fields []string
+		if q[2] != "." {
+			for _, h := range strings.Split(q[2], ",") {
+				b, _ := unhx(h)
+				fields = append(fields, string(b))
+			}
+		}
+		r, err := rs.obs.DocumentValueReader(fields)
+		if err != nil {
+			return "err"
+		}
+		n := rs.obs.Count()
+		var parts []string
+		for _, ds := range parseU32List(q[3]) {
+			var out []string
+			nested := false
+			err := r.VisitDocumentValues(uint64(ds), func(field string, term []byte) {
+				out = append(out, hx([]byte(field))+":"+hx(term))
+				if !nested && n > 0 {
+					nested = true
+					r2, err := rs.obs.DocumentValueReader(fields)
+					if err == nil {
+						_ = r2.VisitDocumentValues((uint64(ds)+1024)%n, func(string, []byte) {})
+						_ = r2.VisitDocumentValues((uint64(ds)+1)%n, func(string, []byte) {})
+					}
+				}
+			})
+			if err != nil {
+				return "err"
+			}
+			parts = append(parts, strings.Join(out, " "))
+		}
+		return strings.Join(parts, " | ")
+	})
+}
+
+func (w *World) segOfTok(tok string) (*RSeg, string) { return w.segOf(tok) }
 
 var _ = math.MaxInt64
